@@ -12,7 +12,7 @@
 (* Part 2 (C20): installation as a state machine over the installed        *)
 (* plugins, with semantic-version precedence.                              *)
 (***************************************************************************)
-EXTENDS Common, Integers
+EXTENDS Common, Integers, Bitwise
 
 (* ------------------------------------------------------------------------ *)
 (* Part 1: names and containment                                            *)
@@ -90,6 +90,10 @@ Replaces(versions, cur, src) ==
 InstallOK(versions, cur, src) == Usable(src) /\ Replaces(versions, cur, src)
 (* the installed directory holds exactly the regular top-level files of the source *)
 FilesOf(src) == {"executable"} \cup (IF src.shape = "dir" THEN Range(src.extras) \ LinkAtoms ELSE {})
+
+(* permission bits: the installed copy of a regular file keeps those bits of its source that 0755 (= 493) lets through; a
+   candidate without the executable bit is given the owner's (0100 = 64) - on the source itself - before it is tried *)
+InstalledMode(srcMode, madeExecutable) == (IF madeExecutable THEN srcMode | 64 ELSE srcMode) & 493
 
 ApplyInstall(versions, cur, src) ==
   IF InstallOK(versions, cur, src) THEN [present |-> TRUE, ver |-> src.ver, files |-> FilesOf(src)]
